@@ -16,7 +16,7 @@
 # with this program; if not, write to the Free Software Foundation, Inc.,
 # 51 Franklin Street, Fifth Floor, Boston, MA 02110-1301 USA.
 #
-from miasmx.tools.modint import uint1, uint8, uint16, uint32, uint64
+from miasmx.tools.modint import uint1, uint8, uint16, uint32, uint64, uint128
 from miasmx.expression.expression import ExprOp, ExprSlice, ExprCompose, \
     ExprCond, ExprInt, ExprMem
 from miasmx.expression.expression import canonize_expr_list
@@ -26,6 +26,7 @@ tab_size_int = {1:uint1,
                 16:uint16,
                 32:uint32,
                 64:uint64,
+                128:uint128,
                 }
 
 tab_max_uint = {8:uint8(0xFF), 16:uint16(0xFFFF), 32:uint32(uint32.limit-1), 64:uint64(uint64.limit-1)}
@@ -80,7 +81,7 @@ def merge_sliceto_slice(args):
                 break
 
             start = sorted_s[-1][1][1]
-            a = uint64((int(out[0].arg) << (out[1] - start )) + int(sorted_s[-1][1][0].arg))
+            a = (int(out[0].arg) << (out[1] - start )) + int(sorted_s[-1][1][0].arg)
             out[0].arg = a
             sorted_s.pop()
             out[1] = start
